@@ -533,6 +533,50 @@ fn component_loop<P: SingleObjectiveProblem>(
         .build())
 }
 
+/// Adds log rules for the four normalised diversity values (every iteration) to the run's log configuration.
+#[derive(Clone, serde::Serialize)]
+pub struct LogDiversity;
+impl<P> Component<P> for LogDiversity
+where
+    P: SingleObjectiveProblem + LimitedVectorProblem<Element = f64>,
+{
+    fn init(&self, _problem: &P, state: &mut State<P>) -> ExecResult<()> {
+        use mahf::components::diversity as dv;
+        state.configure_log(|c| {
+            c.with(mahf::conditions::EveryN::iterations(1), dv::NormalizedDiversityLens::<dv::DimensionWiseDiversity>::entry())
+                .with(mahf::conditions::EveryN::iterations(1), dv::NormalizedDiversityLens::<dv::PairwiseDistanceDiversity>::entry())
+                .with(mahf::conditions::EveryN::iterations(1), dv::NormalizedDiversityLens::<dv::TrueDiversity>::entry())
+                .with(mahf::conditions::EveryN::iterations(1), dv::NormalizedDiversityLens::<dv::DistanceToAveragePointDiversity>::entry());
+            Ok(())
+        })
+    }
+    fn execute(&self, _problem: &P, _state: &mut State<P>) -> ExecResult<()> {
+        Ok(())
+    }
+}
+
+/// Pushes `n` random points that carry a placeholder objective value (+inf) -- what a user's warm start built with
+/// `Individual::new(solution, objective)` looks like before the first evaluation.
+#[derive(Clone, serde::Serialize)]
+pub struct WarmStart {
+    pub n: u32,
+}
+impl<P> Component<P> for WarmStart
+where
+    P: SingleObjectiveProblem + LimitedVectorProblem<Element = f64>,
+{
+    fn execute(&self, problem: &P, state: &mut State<P>) -> ExecResult<()> {
+        use rand::Rng;
+        let mut pop = Vec::new();
+        for _ in 0..self.n {
+            let sol: Vec<f64> = problem.domain().iter().map(|r| state.random_mut().gen_range(r.clone())).collect();
+            pop.push(mahf::Individual::<P>::new(sol, f64::INFINITY.try_into().unwrap()));
+        }
+        state.populations_mut().push(pop);
+        Ok(())
+    }
+}
+
 pub fn real_template<P>(name: &str, p: &Value, n: u32) -> ExecResult<Configuration<P>>
 where
     P: SingleObjectiveProblem + LimitedVectorProblem<Element = f64>,
@@ -540,6 +584,39 @@ where
     use mahf::components::{initialization, mutation, recombination};
     let name = name.strip_suffix("|log4").unwrap_or(name);
     let cond = || LessThanN::iterations(n);
+    if name == "real_ga|div" || name == "real_ga|warm" {
+        // C08: a GA loop that (div) measures and logs all four diversity measures after every evaluation, or
+        // (warm) starts from individuals carrying placeholder objective values that the first evaluation has to replace
+        use mahf::components::{boundary, diversity, replacement, selection};
+        let ps = u(p, "population_size");
+        let b = Configuration::builder();
+        let b = if name.ends_with("warm") {
+            b.do_(Box::new(WarmStart { n: ps }))
+        } else {
+            b.do_(Box::new(LogDiversity)).do_(initialization::RandomSpread::new(ps))
+        };
+        return Ok(b
+            .evaluate()
+            .update_best_individual()
+            .while_(cond(), |b| {
+                let b = b
+                    .do_(selection::Tournament::new(ps, 2))
+                    .do_(mutation::NormalMutation::new(0.3, 1.0))
+                    .do_(boundary::Saturation::new())
+                    .evaluate()
+                    .update_best_individual();
+                let b = if name.ends_with("div") {
+                    b.do_(diversity::DimensionWiseDiversity::new())
+                        .do_(diversity::PairwiseDistanceDiversity::new())
+                        .do_(diversity::TrueDiversity::new())
+                        .do_(diversity::DistanceToAveragePointDiversity::new())
+                } else {
+                    b
+                };
+                b.do_(replacement::Generational::new(ps)).do_(mahf::logging::Logger::new())
+            })
+            .build());
+    }
     if name == "cond" {
         // C15: configurations that differ only in the logical structure of their loop condition
         let a = || LessThanN::iterations(3);
